@@ -603,6 +603,30 @@ ADDENDA7 = {
 for _p, _t in ADDENDA7.items():
     CLAIMS[_p]['text'] = CLAIMS[_p]['text'].rstrip() + _t
 
+ADDENDA8 = {
+    'C01': ' Round 8: no header-derived value in errors raised before the MAC is checked; connection errors reach paused channels (shared C09.R2).',
+    'C02': ' Round 8: negotiated algorithm is the client\'s first common choice in both roles (shared C03.R5); sequence numbers modulo 2^32 (shared C01.R3); compression contexts renewed wherever stored.',
+    'C03': ' Round 8: reply signature algorithm held to the negotiated host key algorithm; fixed-group table consistent (name, constants, hash, modulus size); cleartext inbound serves kex only (shared C06.R1).',
+    'C04': ' Round 8: alias lookup ignores the address; every listed known_hosts file is read; WebAuthn host signatures (shared C16.R10).',
+    'C05': ' Round 8: key-forced environment; unknown authorized_keys options (known finding); list challenge is not a verdict; lower-cased option lookup (shared C17.R3).',
+    'C06': ' Round 8: repeated KEXRSA_PUBKEY refused; one response per challenge; no dispatch after teardown; kex messages read to their end (shared C03.R8).',
+    'C07': ' Round 8: compressor renewed at NEWKEYS (shared C02.R13); SOCKS input buffer only consumed (shared C20.R6).',
+    'C08': ' Round 8: one session start per channel; clear_writer lifts its pause; CLOSE while paused waits for buffered data (shared C07.R2).',
+    'C09': ' Round 8: data after a local close discarded (shared C07.R8); zero low-water mark (shared C08.R9).',
+    'C10': ' Round 8: 256 KiB packet bound matched by channel caps; limits / ranges numbers bounded; _cleanup idempotent; window check (shared C08.R1).',
+    'C11': ' Round 8: compression contexts (shared C02.R13); key exchange handlers not memoised.',
+    'C12': ' Round 8: block reader never built with block size 0; copy-data states the announced length; reply type of status-only requests (shared C14.R7).',
+    'C13': ' Round 8: _setstat passes follow_symlinks to every attribute call.',
+    'C14': ' Round 8: numeric attribute presence tested with "is not None".',
+    'C15': ' Round 8: sk key flags and private key comments kept as read.',
+    'C16': ' Round 8: unknown critical option refused on "critical" alone; key equality (shared C04.R8).',
+    'C17': ' Round 8: entries split at newline only; value options not accepted bare; one entry list per name; files loaded one by one.',
+    'C18': ' Round 8: first hop of a ProxyJump chain leaves the tunnel to the config.',
+    'C20': ' Round 8: destination host name errors refuse that open; forwarded-streamlocal open fields (shared C02.R1).',
+}
+for _p, _t in ADDENDA8.items():
+    CLAIMS[_p]['text'] = CLAIMS[_p]['text'].rstrip() + _t
+
 PENDING = 'check not built yet in this session (planned, see DESIGN.md section 5)'
 
 NOT_APPLICABLE = {
